@@ -14,18 +14,41 @@ structure Setter where
   fields : List String
 deriving Repr, DecidableEq
 
-/-- Graph fields the build result depends on (behind the properties the Builder reads). -/
-def keyFields : List String := ["_results", "_arguments"]
+/-- What an attribute of a Graph that `_build.py` reads stands for: `some (some f)` — the dataclass
+    field `f` (directly or through a property); `some none` — a method that reads no field into the
+    build result (setters, `to_onnx` of an injected result, the memo itself); `none` — unknown to
+    this model (the obligation `builder_reads_known` then fails). -/
+def readField : String → Option (Option String)
+  | "requested_results" => some (some "_results")
+  | "requested_arguments" => some (some "_arguments")
+  | "_results" => some (some "_results")
+  | "_arguments" => some (some "_arguments")
+  | "_extra_opset_req" => some (some "_extra_opset_req")
+  | "_name" => some (some "_name")
+  | "_doc_string" => some (some "_doc_string")
+  | "_constructor" => some (some "_constructor")
+  | "with_name" => some none
+  | "with_opset" => some none
+  | "with_doc" => some none
+  | "_inject_build_result" => some none
+  | "_get_build_result" => some none
+  | "to_onnx" => some none
+  | _ => none
 
-/-- Graph attributes `_build.py` may read; anything else is a dependency this model does not know. -/
-def knownBuilderReads : List String :=
-  ["requested_results", "requested_arguments", "with_name", "_inject_build_result", "_get_build_result", "to_onnx"]
+/-- The Graph fields the build result depends on: those `_build.py` reads (table generated from the
+    source), e.g. `_results`, `_arguments` and — since the Builder passes the model's opset
+    requirements down to subgraphs — `_extra_opset_req`. -/
+def keyFieldsOf (reads : List String) : List String := reads.filterMap (fun r => (readField r).join)
 
-def Setter.changesKey (s : Setter) : Bool := s.fields.any (fun f => keyFields.contains f)
+def readsKnown (reads : List String) : Bool := reads.all (fun r => (readField r).isSome)
+
+def Setter.changesKey (reads : List String) (s : Setter) : Bool :=
+  s.fields.any (fun f => (keyFieldsOf reads).contains f)
 def Setter.resetsCache (s : Setter) : Bool := s.fields.contains "_build_result"
 
-/-- every setter that changes what the build depends on starts the new Graph with its own cache -/
-def settersOk (l : List Setter) : Bool := l.all (fun s => !s.changesKey || s.resetsCache)
+/-- every setter that replaces a field the build depends on starts the new Graph with its own cache -/
+def settersOk (reads : List String) (l : List Setter) : Bool :=
+  l.all (fun s => !s.changesKey reads || s.resetsCache)
 
 structure G (K R : Type) where
   key : K
